@@ -159,7 +159,12 @@ class Contract:
             if f is False:
                 raise PathAbort(f"contract {self.qual}: clause {label} is false for the fresh result")
             S.ctx.assume(f)
+        self.after_result(S, a, ret)
         return ret
+
+    def after_result(self, S, a, ret):
+        """Hook: attach ghost views that the assumed postcondition justifies."""
+        return None
 
     def bind(self, interp, pos, kw, self_val=None, cls_val=None):
         fi = interp.index.get(self.qual)
